@@ -913,6 +913,63 @@ def r13(R):
         for v in vs:
             R.violation(v.node, v.message, g, v.path,
                         key='file removed without asking for its revision')
+        if meth == '_packNonUndoing':
+            # what this sweep does keep for an existing object -- the newest
+            # file not later than the cutoff -- it keeps whatever else is in
+            # the directory (a newer file belongs to a commit in flight,
+            # which may still abort)
+            def edge_s(node, st, lab, tgt, F=F):
+                exists, spared = st
+                if node.kind == 'for' and lab == 'T':
+                    stmt = node.info.get('stmt') if node.info else None
+                    if stmt is not None and any(
+                            isinstance(c, ast.Call) and dotted(c.func) and
+                            dotted(c.func)[-1] == 'listOIDs'
+                            for c in ast.walk(stmt.iter)):
+                        return ('unknown', False)
+                for op in F.ops(node):
+                    if op.kind == 'call' and op.path and op.path[-1].split(
+                            '.')[-1] in ('load_current', 'load'):
+                        exists = 'no' if lab in ('e', 'eb') else 'yes'
+                    if op.kind == 'call' and op.path and len(op.path) == 3 \
+                            and op.path[0] == '%local' and op.path[2] in (
+                                'remove', 'pop') and lab not in ('e', 'eb'):
+                        spared = True
+                    if op.kind in ('delitem',) and lab not in ('e', 'eb'):
+                        spared = True
+                if node.kind == 'test' and lab in ('T', 'F'):
+                    atoms = implied_atoms(node.ast, lab)
+                    for e, truth in atoms:
+                        if isinstance(e, ast.Name) and e.id == 'exists':
+                            exists = 'yes' if truth else 'no'
+                    # nothing to spare: the list is empty -- only when the
+                    # test is about the list alone
+                    if isinstance(node.ast, ast.Name) and lab == 'F' and \
+                            node.ast.id != 'exists':
+                        spared = True
+                return (exists, spared)
+
+            def at_s(node, st, F=F):
+                exists, spared = st
+                for op in F.ops(node):
+                    if op.kind == 'call' and op.path and op.path[-1].split(
+                            '.')[-1] == 'remove_committed' and \
+                            exists == 'yes' and not spared:
+                        return Violation(
+                            'BlobStorage._packNonUndoing removes the files '
+                            'of an existing object without having spared the '
+                            'newest one on this path (for instance because a '
+                            'still newer file is there): that newer file '
+                            'belongs to a commit in flight -- if it aborts, '
+                            'the current revision has no blob file')
+                return st
+
+            vs, stats = explore(g, ('unknown', False), at=at_s, edge=edge_s)
+            R.count(stats)
+            for v in vs[:1]:
+                R.violation(v.node, v.message, g, v.path,
+                            key='newest file of an existing object not '
+                                'spared')
     R.require(n >= 2, 'sweeps not found')
 
 
